@@ -290,7 +290,9 @@ def sort_assignments(
                 "Try to save the ODE to an .ode file first and load it again"
             )
             raise exceptions.GotranxError(msg)
-        sorter.add(assignment.name, *assignment.value.dependencies)
+        # Sort the dependencies (a frozenset of strings) to make the order, and thereby
+        # the generated code and the indices of the states, independent of the hash seed
+        sorter.add(assignment.name, *sorted(assignment.value.dependencies))
 
     static_order = tuple(sorter.static_order())
 
